@@ -273,6 +273,57 @@ func (c *Ctx) NAME(rule string) []report.Obligation {
 	} else {
 		out = append(out, anchorViolation(rule+"-3", "cli.WithName$1"))
 	}
+	// ---- NAME-5: normalisation trims last. The result must start with [a-z0-9]: the leading `_` / `-` are
+	// trimmed from what is left after the disallowed characters were filtered out, so every value returned is the
+	// result of the trim, applied to the filtered text (a trim before the filter lets `._x` through as `_x`)
+	if f := c.P.Func("loader.NormalizeProjectName"); f != nil {
+		good := true
+		n := 0
+		why := ""
+		for _, r := range returnsOf(f) {
+			n++
+			call, ok := retValue(r, 0).(*ssa.Call)
+			if !ok || !strings.HasPrefix(staticName(&call.Call), "strings.TrimLeft") && staticName(&call.Call) != "strings.TrimLeftFunc" {
+				good, why = false, "a returned value is not the result of trimming the leading `_` and `-`"
+				continue
+			}
+			// the trimmed operand comes out of the character filter (a regexp method or strings.Map)
+			filtered := false
+			var walk func(v ssa.Value, d int)
+			walk = func(v ssa.Value, d int) {
+				if d == 0 || filtered {
+					return
+				}
+				switch x := v.(type) {
+				case *ssa.Call:
+					sn := staticName(&x.Call)
+					if strings.HasPrefix(sn, "(*regexp.Regexp).") || sn == "strings.Map" {
+						filtered = true
+						return
+					}
+					for _, a := range x.Call.Args {
+						walk(a, d-1)
+					}
+				case *ssa.Phi:
+					for _, e := range x.Edges {
+						walk(e, d-1)
+					}
+				case *ssa.Slice:
+					walk(x.X, d-1)
+				case *ssa.Extract:
+					walk(x.Tuple, d-1)
+				}
+			}
+			walk(call.Call.Args[0], 6)
+			if !filtered {
+				good, why = false, "the trim is applied before the disallowed characters are filtered out"
+			}
+		}
+		out = append(out, verdict(good && n > 0, rule+"-5", "NormalizeProjectName :: leading `_`/`-` trimmed from the filtered text", c.P.Pos(f.Pos()),
+			"every result is strings.TrimLeft applied to the filtered text", why+": a name whose first character is dropped by the filter and is followed by `_` or `-` comes out starting with `_` / `-`"))
+	} else {
+		out = append(out, anchorViolation(rule+"-5", "loader.NormalizeProjectName"))
+	}
 	// ---- ENV: .env lookup consults the current environment before earlier files
 	if host := c.P.Func("dotenv.GetEnvFromFile"); host != nil {
 		// the lookup handed to the parser: a closure literal, or the result of a constructor that returns one
@@ -467,7 +518,7 @@ func (c *Ctx) LAY(rule string) []report.Obligation {
 				}
 				if fieldName(fa) == sp.files {
 					n++
-					flag := factHolds(b, func(cond ssa.Value, val bool) bool { return cond == ssa.Value(f.Params[1]) && val })
+					flag := factHolds(b, func(cond ssa.Value, val bool) bool { return sameParam(cond, paramByType(f, "bool")) && val })
 					out = append(out, verdict(flag, rule+"-4", sp.fn+" :: file references dropped only when requested", c.P.InstrPos(in),
 						sp.files+" = nil on the discard=true edge", "the file references are dropped regardless of the discard flag"))
 				} else if fieldOwner(fa) == "ServiceConfig" {
